@@ -292,6 +292,8 @@ class Capabilities(object):
                     layers=self.layers,
                     info_formats=self.info_formats,
                     tile_matrix_sets=self.matrix_sets,
+                    # no URL template in the KVP service: dimensions are named as configured
+                    dimension_keys={},
                     legendurls=legendurls)
 
     def _render_template(self, template):
